@@ -416,6 +416,9 @@ def gen_queue():
                d["head0"], d["tail0"], d["max_threads"][1]))
 
 
+import genoutput  # noqa: registers GenOutput.v (lock discipline of the output path), same tie, same property
+
+
 if __name__ == "__main__":
     import json
     print(json.dumps(parse(), indent=1))
